@@ -742,7 +742,7 @@ func (s *csSuite) stepTime() {
 func init() { suites["coinswap"] = runCoinswap }
 
 func runCoinswap(seed uint64, nOps int, outPath string) map[string]int {
-	s := &csSuite{r: &Rng{s: seed*0x9e3779b97f4a7c15 + 11}, stat: map[string]int{}}
+	s := &csSuite{r: SeedRng("coinswap", seed), stat: map[string]int{}}
 	s.t = NewTrace(outPath)
 	defer s.t.Close()
 	done := 0
